@@ -326,7 +326,7 @@ def run(facts, tier):
 
     # ---------------- T15.9 every path operator the parser reads takes its own postfix `?`
     t9 = Rule("T15.9", "each path part the parser builds (`.k`, `.\"k\"`, `[..]`) is paired with the optionality read from the tokens that follow it "
-              "(the parser's `?`-reader, the method of the parser that returns `path::Opt`), never with a constant: otherwise `.a.\"b\"?` makes the whole path optional or is rejected", floor=4)
+              "(the parser's `?`-reader, the method of the parser that returns `path::Opt`), never with a constant: otherwise `.a.\"b\"?` makes the whole path optional or is rejected", floor=2)
     PART_OPT = re.compile(r"^\(jaq_core::path::Part<.*>, jaq_core::path::Opt\)$")
     n9 = 0
     for f_ in facts.hir("jaq_core"):
